@@ -26,6 +26,7 @@ func (lru *LRUCache) set(key any, val *btreeNode) bool {
 	if found {
 		entry.Value.(*cacheEntry).val = val
 		lru.list.MoveToFront(entry)
+		verifLRU(lru, verifLRUSetHit, key, val)
 		return true
 	}
 
@@ -34,6 +35,7 @@ func (lru *LRUCache) set(key any, val *btreeNode) bool {
 		cur := lru.list.Back()
 		for {
 			if cur == nil {
+				verifLRU(lru, verifLRURefuse, key, val)
 				return false
 			} else if !cur.Value.(*cacheEntry).val.isDirty() {
 				break
@@ -44,6 +46,7 @@ func (lru *LRUCache) set(key any, val *btreeNode) bool {
 
 		lru.list.Remove(cur)
 		delete(lru.cache, cur.Value.(*cacheEntry).key)
+		verifLRU(lru, verifLRUEvict, cur.Value.(*cacheEntry).key, cur.Value.(*cacheEntry).val)
 	}
 
 	elem := lru.list.PushFront(&cacheEntry{
@@ -51,6 +54,7 @@ func (lru *LRUCache) set(key any, val *btreeNode) bool {
 		val: val,
 	})
 	lru.cache[key] = elem
+	verifLRU(lru, verifLRUSetNew, key, val)
 	return true
 }
 
@@ -58,7 +62,9 @@ func (lru *LRUCache) get(key any) (*btreeNode, bool) {
 	entry, found := lru.cache[key]
 	if found {
 		lru.list.MoveToFront(entry)
+		verifLRU(lru, verifLRUGetHit, key, entry.Value.(*cacheEntry).val)
 		return entry.Value.(*cacheEntry).val, true
 	}
+	verifLRU(lru, verifLRUGetMiss, key, nil)
 	return nil, false
 }
